@@ -5,7 +5,7 @@ cd /verif
 [ $# -gt 0 ] || set -- $(ls seeded | grep '^C')
 for sid in "$@"; do
   pid=$(echo "$sid" | sed 's/.$//'); letter=$(echo "$sid" | sed 's/.*\(.\)$/\1/')
-  n=$(printf '%s' "$letter" | tr 'abcdefghijklmnop' '123456789ABCDEFG'); n=$(printf '%d' "0x$n")
+  n=$(python3 -c "print(ord('$letter') - ord('a') + 1)")
   [ "$n" = 1 ] && suffix="" || suffix=$n
   out=$(SEED_SRC=/nonexistent python3 engine/ingest_seed.py "$pid" "$suffix" "$pid" 2>&1 | tail -1)
   case "$out" in
